@@ -458,6 +458,11 @@ func c10exec(op string) Result {
 	if rep := c10newRaces(); rep != "" {
 		res.Viol = "data race reported while a race-free program ran:\n" + truncate(rep, 3000)
 		res.Key = c10raceKey(rep)
+		if strings.Contains(res.Key, "typeutil") || strings.Contains(res.Key, "xreflect.(*Universe)") {
+			// the unsynchronised Universe again (F20): a goroutine of an earlier program is still running
+			// (or starts late) while the next program is being compiled
+			res.Key = "compile-while-running-universe-race"
+		}
 		res.Tags = append(res.Tags, "race-report")
 	}
 	return res
@@ -564,7 +569,7 @@ func c10gen(r *rand.Rand, tier string, emit func(string)) {
 	emit("pipe caps=0,0,0 f=1,0 g=1,0 vals= y=0")
 	emit("fanin cap=0 lists= y=0")
 	emit("merge def=0 caps=0,0 la= lb= y=0")
-	n := 110
+	n := 60
 	if tier == "thorough" {
 		n = 2500
 	}
@@ -588,7 +593,7 @@ func c10gen(r *rand.Rand, tier string, emit func(string)) {
 	emit("merge def=2 caps=1,1 la=1 lb=2 y=0")
 	emit("bogus a=1")
 	// the REPL scenario of finding F20
-	emit("f20 n=150")
+	emit("f20 n=60")
 }
 
 func init() {
